@@ -20,6 +20,7 @@ RULE = ('(a) flag subsets of the 19 boolean flags on two sentinel sources in whi
         'argument combinations. Oracle: bytes written == sizerule(S, utf8(minify(S, **documented(F)))) with exit status 0; '
         'invalid combinations exit non-zero with nothing written. Non-trivial: the flag subset changes the API output '
         'relative to no flags, or is an invalid combination. Distinct = sha256(flags, preserve spellings, source, modes).')
+RULE += ' A third of the sources of (b) come from the size-boundary families of C14 (tiny files, non-UTF-8 cookie files that grow in UTF-8, statements that grow or cost a byte when hoisted).'
 ASSUMPTIONS = ['flag -> option table written from docs/source/transforms/*.rst and --help',
                'in-process invocation of python_minifier.__main__.main with patched argv/stdio is equivalent to the console script (sampled through a subprocess too)']
 
